@@ -152,9 +152,32 @@ def build_cases(ctx, env):
         for pname, w2, t2 in positions(w, t):
             if pname in ("ptr", "mapval"):
                 continue   # reference indices shift inside a wrapper
+    # random structured values: types of depth <= 3 and wire trees shaped by them
+    rg = G.RandGen(rng, env["structs"])
+    for i in range(1500 if quick else 40000):
+        w, t = rg.case(3)
+        o = rng.choice([default, default, refopt, G.Opts(True, rng.choice(["int", "uint", "int64", "uint64", "bigint"]),
+                                                         rng.choice(["f64", "f32", "bigfloat"]), rng.random() < 0.5, rng.random() < 0.5, rng.random() < 0.5)])
+        cases.append(Case(w, t, o, "rand:" + w[0]))
+    cases = corpus_cases() + cases
     for i, c in enumerate(cases):
         c.id = i + 1
     return cases
+
+
+def corpus_cases():
+    """Minimised streams of past findings (corpus/C06-*.json): fixed ones must pass, known ones keep their key."""
+    import glob
+    out = []
+    for f in sorted(glob.glob(os.path.join(hv.V, "corpus", "C06-*.json"))):
+        try:
+            r = json.load(open(f))
+            c = case_from_replay(r["case"])
+            c.tag = "corpus:" + os.path.basename(f)
+            out.append(c)
+        except Exception:
+            pass
+    return out
 
 
 # ---------------------------------------------------------------------------------------- execution
@@ -337,7 +360,7 @@ def finding_key(c, verdict):
         ints = _ints_in(c.w, [])
         if _has_tag(c.w, "d") and ("(int " in ts or "bigint" in ts):
             return "c06:float-to-int-truncates-silently", "a double that is not an integer of the destination's range is converted to an integer without error"
-        if "(iface)" in ts and _has_tag(c.w, "l"):
+        if ("(iface)" in ts or "(list)" in ts) and _has_tag(c.w, "l") and not ("(int " in ts or "bigint" in ts):
             if c.opts.long in ("uint", "uint64") and any(z < 0 for z in ints):
                 return "c06:negative-into-unsigned-wraps", "a negative integer decoded into an unsigned destination wraps around without error"
             return "c06:integer-above-int64-in-interface-wraps", "a long outside the configured integer type decoded into interface{} wraps around without error"
